@@ -127,6 +127,9 @@ func evalOutcome(oc *Outcome) []finding {
 	if oc.CloseMs > oc.BoundMs {
 		out = append(out, finding{"Close returns in bounded time", "life-close-latency:" + t, fmt.Sprintf("Close took %.0f ms, bound %.0f ms (2*WriteTimeout + 3 s)", oc.CloseMs, oc.BoundMs)})
 	}
+	if len(oc.BlockedAt) > 0 {
+		out = append(out, finding{"no goroutine of the closed object is still waiting when Close returns", "life-goroutine-blocked-at-close-return:" + t, strings.Join(oc.BlockedAt, "\n")})
+	}
 	if len(oc.LeftAfter) > 0 {
 		out = append(out, finding{"no goroutine of the closed object remains", "life-goroutine-after-close:" + t, strings.Join(oc.LeftAfter, "\n")})
 	}
@@ -140,7 +143,11 @@ func evalOutcome(oc *Outcome) []finding {
 		out = append(out, finding{"no descriptor remains after everything was closed", "life-fd-leak:" + t, strings.Join(oc.FdFinal, "; ")})
 	}
 	if len(oc.StreamLate) > 0 {
-		out = append(out, finding{"ServerStream.Close closes its readers", "life-stream-reader-not-closed", "sessions " + strings.Join(oc.StreamLate, ",")})
+		if t == "session" {
+			out = append(out, finding{"ServerSession.Close closes the session", "life-session-not-closed", "sessions " + strings.Join(oc.StreamLate, ",")})
+		} else {
+			out = append(out, finding{"ServerStream.Close closes its readers", "life-stream-reader-not-closed", "sessions " + strings.Join(oc.StreamLate, ",")})
+		}
 	}
 	return out
 }
